@@ -1,15 +1,16 @@
 -- REGENERATED from src/cache/http_cache.go, src/cache/cmd_cache.go by /verif/harness/extract/c13 on every run. Do not edit.
 namespace PlzVerif.Generated.C13
 def httpOnWalkError : List String := []
-def httpDeferred : List String := ["w.Close", "gzw.Close", "tw.Close"]
+def httpDeferred : List String := ["pipe.Close", "gzip.Close", "tar.Close"]
 def httpClosesPipeNormally : Bool := true
 def storeFileOrder : List String := ["lstat", "header", "open", "copy"]
-def readTarEofIsHit : Bool := true
-def readTarErrorIsMiss : Bool := true
+def readTarReturns : List String := ["next-eof -> true, nil", "next-error -> false, err", "mkdirall -> false, err", "mkdirall -> false, err", "open -> false, err", "copy -> false, err", "close -> false, err", "symlink -> false, err"]
+def readTarLoopLeftOnlyByReturn : Bool := true
 def httpNotFoundIsMiss : Bool := true
 def httpNon200IsError : Bool := true
 def cmdOnWalkError : List String := ["cancel", "return"]
-def cmdDeferred : List String := ["w.Close", "tw.Close"]
+def cmdDeferred : List String := ["pipe.Close", "tar.Close"]
 def cmdStoreCancellable : Bool := true
 def cmdRetrieveAndsExitStatus : Bool := true
+def cmdRetrieveInputNeverEndsCleanly : Bool := true
 end PlzVerif.Generated.C13
